@@ -135,3 +135,82 @@ def gen_cli_tables():
 
 if __name__ == "__main__":
     print(json.dumps(gen_cli_tables(), indent=1)[:3000])
+
+
+# --------------------------------------------------------------------------------------------------
+# C07: iteration over hash-ordered collections (sets / frozensets) in the package, by an `ast` walk
+
+def _set_sites():
+    import ast
+    pkg = os.path.join(C.REPO, "graphtage")
+    sites = []
+
+    def is_set_expr(e, setnames):
+        if isinstance(e, (ast.Set, ast.SetComp)):
+            return True
+        if isinstance(e, ast.Call) and isinstance(e.func, ast.Name) and e.func.id in ("set", "frozenset"):
+            return True
+        if isinstance(e, ast.Name) and e.id in setnames:
+            return True
+        if isinstance(e, ast.Attribute) and isinstance(e.value, ast.Name) and e.value.id == "self" and ("self." + e.attr) in setnames:
+            return True
+        if isinstance(e, ast.BinOp) and isinstance(e.op, (ast.BitOr, ast.BitAnd, ast.Sub, ast.BitXor)):
+            return is_set_expr(e.left, setnames) and is_set_expr(e.right, setnames)
+        if isinstance(e, ast.Call) and isinstance(e.func, ast.Attribute) and e.func.attr in ("union", "intersection", "difference", "symmetric_difference", "copy") and is_set_expr(e.func.value, setnames):
+            return True
+        return False
+
+    for fn in sorted(os.listdir(pkg)):
+        if not fn.endswith(".py"):
+            continue
+        tree = ast.parse(open(os.path.join(pkg, fn), encoding="utf-8").read())
+        # class-level knowledge: self.x assigned / annotated as a set anywhere in the file
+        selfsets = set()
+        for node in ast.walk(tree):
+            if isinstance(node, (ast.Assign, ast.AnnAssign)):
+                tgts = node.targets if isinstance(node, ast.Assign) else [node.target]
+                val = node.value
+                ann = getattr(node, "annotation", None)
+                ann_is_set = ann is not None and "Set[" in ast.unparse(ann)
+                for t in tgts:
+                    if isinstance(t, ast.Attribute) and isinstance(t.value, ast.Name) and t.value.id == "self":
+                        if ann_is_set or (val is not None and is_set_expr(val, set())):
+                            selfsets.add("self." + t.attr)
+        for func in [n for n in ast.walk(tree) if isinstance(n, (ast.FunctionDef, ast.AsyncFunctionDef))]:
+            names = set(selfsets)
+            for node in ast.walk(func):
+                if isinstance(node, (ast.Assign, ast.AnnAssign)):
+                    tgts = node.targets if isinstance(node, ast.Assign) else [node.target]
+                    ann = getattr(node, "annotation", None)
+                    ann_is_set = ann is not None and "Set[" in ast.unparse(ann)
+                    for t in tgts:
+                        if isinstance(t, ast.Name) and (ann_is_set or (node.value is not None and is_set_expr(node.value, names))):
+                            names.add(t.id)
+            for node in ast.walk(func):
+                it = None
+                how = None
+                if isinstance(node, (ast.For, ast.AsyncFor)):
+                    it, how = node.iter, "for"
+                elif isinstance(node, ast.comprehension):
+                    it, how = node.iter, "comprehension"
+                elif isinstance(node, ast.YieldFrom):
+                    it, how = node.value, "yield-from"
+                elif isinstance(node, ast.Call) and isinstance(node.func, ast.Name) and node.func.id in ("list", "tuple", "iter", "next", "enumerate") and node.args:
+                    it, how = node.args[0], node.func.id
+                elif isinstance(node, ast.Call) and isinstance(node.func, ast.Attribute) and node.func.attr == "join" and node.args:
+                    it, how = node.args[0], "join"
+                if it is not None and is_set_expr(it, names):
+                    sites.append([fn, func.name, how, ast.unparse(it)[:60]])
+    return sorted(map(tuple, set(map(tuple, sites))))
+
+
+def gen_set_sites():
+    sites = _set_sites()
+    lines = ["-- GENERATED from /repo by harness/gentables.py on every run. Do not edit.",
+             "namespace GtModel.Gen", "",
+             "/-- every place in the package where a `set`/`frozenset` is iterated: (file, function, how, expression) -/",
+             "def setSites : List (String × String × String × String) := ["]
+    lines.append(",\n".join(f"  ({_s(a)}, {_s(b)}, {_s(c)}, {_s(d)})" for a, b, c, d in sites))
+    lines += ["]", "", "end GtModel.Gen", ""]
+    _write_if_changed(os.path.join(GEN_DIR, "SetSites.lean"), "\n".join(lines))
+    return sites
